@@ -36,104 +36,189 @@ func init() {
 
 func c08r7(c *Check) {
 	want := []string{"depth", "readFileNum", "readPos", "writeFileNum", "writePos"}
-	pm := c.P.Func("nsqd", "*DiskQueue", "persistMetaData")
-	rm := c.P.Func("nsqd", "*DiskQueue", "retrieveMetaData")
-	// writer
+	pkg := c.P.Pkg("nsqd").Types
+	// the queue field behind a field of an intermediate record (a metadata struct filled from / copied
+	// into the queue's fields): record field -> queue field, separately for the two directions
+	toRec, fromRec := map[*types.Var]string{}, map[*types.Var]string{}
+	queueFieldOfAddr := func(v ssa.Value) string {
+		if fa, ok := v.(*ssa.FieldAddr); ok {
+			return dqFieldName(fa)
+		}
+		return ""
+	}
+	queueFieldOfValue := func(v ssa.Value) string {
+		if cl, ok := v.(*ssa.Call); ok && calleeName(cl.Common()) == "sync/atomic.LoadInt64" {
+			return queueFieldOfAddr(cl.Call.Args[0])
+		}
+		if u, ok := v.(*ssa.UnOp); ok && u.Op == token.MUL {
+			return queueFieldOfAddr(u.X)
+		}
+		return ""
+	}
+	recFieldOfValue := func(v ssa.Value) *types.Var {
+		switch x := v.(type) {
+		case *ssa.UnOp:
+			if fa, ok := x.X.(*ssa.FieldAddr); ok && x.Op == token.MUL && dqFieldName(fa) == "" {
+				return fieldOfAddr(fa)
+			}
+		case *ssa.Field:
+			if st, ok := x.X.Type().Underlying().(*types.Struct); ok {
+				return st.Field(x.Field)
+			}
+		}
+		return nil
+	}
+	var pkgFuncs []*ssa.Function
+	for _, fn := range c.P.Funcs {
+		if fnPkg(fn) == pkg {
+			pkgFuncs = append(pkgFuncs, fn)
+		}
+	}
+	for _, fn := range pkgFuncs {
+		allInstrs(fn, func(in ssa.Instruction) {
+			switch x := in.(type) {
+			case *ssa.Store:
+				if fa, ok := x.Addr.(*ssa.FieldAddr); ok {
+					if dqFieldName(fa) == "" {
+						if q := queueFieldOfValue(x.Val); q != "" {
+							toRec[fieldOfAddr(fa)] = q
+						}
+					} else if rf := recFieldOfValue(x.Val); rf != nil {
+						fromRec[rf] = dqFieldName(fa)
+					}
+				}
+			case *ssa.Call:
+				if calleeName(x.Common()) == "sync/atomic.StoreInt64" {
+					if q := queueFieldOfAddr(x.Call.Args[0]); q != "" {
+						if rf := recFieldOfValue(x.Call.Args[1]); rf != nil {
+							fromRec[rf] = q
+						}
+					}
+				}
+			}
+		})
+	}
+	// writer(s) and reader(s) of the metadata record, wherever they live in the package
 	var wfmt, rfmt string
 	var wnames, rnames []string
 	var wcall, rcall ssa.Instruction
-	allInstrs(pm, func(in ssa.Instruction) {
-		call, ok := in.(*ssa.Call)
-		if !ok || calleeName(call.Common()) != "fmt.Fprintf" {
-			return
-		}
-		wcall = in
-		wfmt, _ = constString(call.Call.Args[1])
-		elems, ok := variadicElems(call.Call.Args[2])
-		if !ok {
-			return
-		}
-		for _, e := range elems {
-			name := "?"
-			if cl, ok := e.(*ssa.Call); ok && calleeName(cl.Common()) == "sync/atomic.LoadInt64" {
-				if fa, ok := cl.Call.Args[0].(*ssa.FieldAddr); ok {
-					name = fieldOfAddr(fa).Name()
-				}
-			} else if _, f, ok := fieldLoad(e); ok {
-				name = f.Name()
+	nW, nR := 0, 0
+	fmtOf := func(v ssa.Value) string {
+		s, _ := constString(v)
+		return s
+	}
+	for _, fn := range pkgFuncs {
+		allInstrs(fn, func(in ssa.Instruction) {
+			call, ok := in.(*ssa.Call)
+			if !ok {
+				return
 			}
-			wnames = append(wnames, name)
-		}
-	})
-	if wcall == nil {
-		anchorFail("persistMetaData: no fmt.Fprintf call")
+			switch calleeName(call.Common()) {
+			case "fmt.Fprintf":
+				if mi, ok := writerArg(call.Call.Args[0]).(*ssa.MakeInterface); !ok || mi.X.Type().String() != "*os.File" {
+					return
+				}
+				nW++
+				wcall = in
+				wfmt = fmtOf(call.Call.Args[1])
+				elems, ok := variadicElems(call.Call.Args[2])
+				if !ok {
+					return
+				}
+				wnames = nil
+				for _, e := range elems {
+					name := "?"
+					if q := queueFieldOfValue(e); q != "" {
+						name = q
+					} else if rf := recFieldOfValue(e); rf != nil && toRec[rf] != "" {
+						name = toRec[rf]
+					}
+					wnames = append(wnames, name)
+				}
+			case "fmt.Fscanf":
+				nR++
+				rcall = in
+				rfmt = fmtOf(call.Call.Args[1])
+				elems, ok := variadicElems(call.Call.Args[2])
+				if !ok {
+					return
+				}
+				rnames = nil
+				for _, e := range elems {
+					name := "?"
+					switch a := e.(type) {
+					case *ssa.FieldAddr:
+						if q := dqFieldName(a); q != "" {
+							name = q
+						} else if fromRec[fieldOfAddr(a)] != "" {
+							name = fromRec[fieldOfAddr(a)]
+						}
+					case *ssa.Alloc:
+						// a local that is afterwards stored into a field (atomic.StoreInt64(&d.depth, depth))
+						for _, r := range *a.Referrers() {
+							ld, ok := r.(*ssa.UnOp)
+							if !ok {
+								continue
+							}
+							for _, rr := range *ld.Referrers() {
+								if cl, ok := rr.(*ssa.Call); ok && calleeName(cl.Common()) == "sync/atomic.StoreInt64" && cl.Call.Args[1] == ssa.Value(ld) {
+									if q := queueFieldOfAddr(cl.Call.Args[0]); q != "" {
+										name = q
+									}
+								}
+								if st, ok := rr.(*ssa.Store); ok && st.Val == ssa.Value(ld) {
+									if q := queueFieldOfAddr(st.Addr); q != "" {
+										name = q
+									}
+								}
+							}
+						}
+					}
+					rnames = append(rnames, name)
+				}
+			}
+		})
+	}
+	if wcall == nil || nW != 1 {
+		anchorFail("package nsqd: expected exactly one fmt.Fprintf to a file (the metadata writer), found %d", nW)
+	}
+	if rcall == nil || nR != 1 {
+		anchorFail("package nsqd: expected exactly one fmt.Fscanf (the metadata reader), found %d", nR)
 	}
 	c.Judge(strings.Join(wnames, ",") == strings.Join(want, ","), "nsqd.persistMetaData persists depth and the consumer/writer cursors", c.At(wcall), "writes "+strings.Join(want, ", "), fmt.Sprintf("the metadata file is written from %v instead of %v: after a restart the queue resumes at a position that is not the first undelivered message / the end of the written data", wnames, want))
-	// reader
-	depthVia := ""
-	allInstrs(rm, func(in ssa.Instruction) {
-		call, ok := in.(*ssa.Call)
-		if !ok || calleeName(call.Common()) != "fmt.Fscanf" {
-			return
-		}
-		rcall = in
-		rfmt, _ = constString(call.Call.Args[1])
-		elems, ok := variadicElems(call.Call.Args[2])
-		if !ok {
-			return
-		}
-		for _, e := range elems {
-			name := "?"
-			switch a := e.(type) {
-			case *ssa.FieldAddr:
-				name = fieldOfAddr(a).Name()
-			case *ssa.Alloc:
-				// a local that is afterwards stored into a field (atomic.StoreInt64(&d.depth, depth))
-				for _, r := range *a.Referrers() {
-					ld, ok := r.(*ssa.UnOp)
-					if !ok {
-						continue
-					}
-					for _, rr := range *ld.Referrers() {
-						if cl, ok := rr.(*ssa.Call); ok && calleeName(cl.Common()) == "sync/atomic.StoreInt64" && cl.Call.Args[1] == ssa.Value(ld) {
-							if fa, ok := cl.Call.Args[0].(*ssa.FieldAddr); ok {
-								name = fieldOfAddr(fa).Name()
-								depthVia = "atomic.StoreInt64"
+	c.Judge(strings.Join(rnames, ",") == strings.Join(want, ","), "nsqd.retrieveMetaData restores depth and the consumer/writer cursors", c.At(rcall), "reads into "+strings.Join(want, ", "), fmt.Sprintf("the metadata file is read into %v instead of %v", rnames, want))
+	c.Judge(wfmt == rfmt && wfmt != "", "nsqd metadata format agrees between writer and reader", c.At(wcall), fmt.Sprintf("%q", wfmt), fmt.Sprintf("persistMetaData writes %q but retrieveMetaData parses %q", wfmt, rfmt))
+	// read-ahead cursor re-derived from the consumer cursor (rule C09.R9 (a) for the load path)
+	rm := c.P.Func("nsqd", "*DiskQueue", "retrieveMetaData")
+	keyOf, dep := c09keyOf, c09dependsOnField
+	bad := ""
+	reachRM := c.P.CG().Reach([]*ssa.Function{rm}, syncKinds, nil)
+	for f, next := range map[string]string{"readPos": "nextReadPos", "readFileNum": "nextReadFileNum"} {
+		// the function that receives the parsed values into the queue's field
+		for _, fn := range pkgFuncs {
+			touches := false
+			allInstrs(fn, func(in ssa.Instruction) {
+				if fa, ok := in.(*ssa.FieldAddr); ok && dqFieldName(fa) == f && (fn == rm || reachRM[fn] != nil) {
+					for _, r := range *fa.Referrers() {
+						switch x := r.(type) {
+						case *ssa.Store:
+							if x.Addr == ssa.Value(fa) && !dep(x.Val, next) {
+								touches = true
 							}
-						}
-						if st, ok := rr.(*ssa.Store); ok && st.Val == ssa.Value(ld) {
-							if fa, ok := st.Addr.(*ssa.FieldAddr); ok {
-								name = fieldOfAddr(fa).Name()
-							}
+						case *ssa.MakeInterface, *ssa.Call:
+							touches = true
 						}
 					}
 				}
+			})
+			if touches {
+				if b := seedAfter(c, fn, f, next, keyOf, dep, 0); b != "" {
+					bad = b
+				}
 			}
-			rnames = append(rnames, name)
 		}
-	})
-	_ = depthVia
-	if rcall == nil {
-		anchorFail("retrieveMetaData: no fmt.Fscanf call")
 	}
-	c.Judge(strings.Join(rnames, ",") == strings.Join(want, ","), "nsqd.retrieveMetaData restores depth and the consumer/writer cursors", c.At(rcall), "reads into "+strings.Join(want, ", "), fmt.Sprintf("the metadata file is read into %v instead of %v", rnames, want))
-	c.Judge(wfmt == rfmt && wfmt != "", "nsqd metadata format agrees between writer and reader", c.At(wcall), fmt.Sprintf("%q", wfmt), fmt.Sprintf("persistMetaData writes %q but retrieveMetaData parses %q", wfmt, rfmt))
-	// read-ahead cursor re-derived from the consumer cursor
-	derived := map[string]string{}
-	allInstrs(rm, func(in ssa.Instruction) {
-		st, ok := in.(*ssa.Store)
-		if !ok {
-			return
-		}
-		fa, ok := st.Addr.(*ssa.FieldAddr)
-		if !ok {
-			return
-		}
-		if _, f, ok := fieldLoad(st.Val); ok && instrDominates(rcall, in) {
-			derived[fieldOfAddr(fa).Name()] = f.Name()
-		}
-	})
-	c.Judge(derived["nextReadFileNum"] == "readFileNum" && derived["nextReadPos"] == "readPos", "nsqd.retrieveMetaData read-ahead cursor starts at the consumer cursor", c.AtFn(rm), "nextReadFileNum = readFileNum; nextReadPos = readPos after the metadata was parsed", fmt.Sprintf("after loading the metadata the read-ahead cursor is set from %v: the first message read after a restart is not the first undelivered one", derived))
+	c.Judge(bad == "", "nsqd.retrieveMetaData read-ahead cursor starts at the consumer cursor", c.AtFn(rm), "nextReadFileNum = readFileNum; nextReadPos = readPos after the metadata was parsed", "after loading the metadata the read-ahead cursor is not set from the consumer cursor: the first message read after a restart is not the first undelivered one — "+bad)
 }
 
 const nsqdDQ = "(*" + modPath + "/nsqd.DiskQueue)."
@@ -208,25 +293,40 @@ func c08r1(c *Check) {
 func c08r2(c *Check) {
 	fn := c.P.Func("nsqd", "*DiskQueue", "persistMetaData")
 	var rename *ssa.Call
-	cfg := &PathCfg{Classify: func(in ssa.Instruction) []string {
-		cc := callCommon(in)
-		if cc == nil {
+	writes := func(g *ssa.Function) bool {
+		found := false
+		allInstrs(g, func(in ssa.Instruction) {
+			if cc := callCommon(in); cc != nil {
+				switch calleeName(cc) {
+				case "fmt.Fprintf", "fmt.Fprint", "fmt.Fprintln", "(*os.File).Write", "(*os.File).WriteString", "(io.Writer).Write", "(*os.File).Sync", "(*os.File).Close", "os.Rename", "os.OpenFile":
+					found = true
+				}
+			}
+		})
+		return found
+	}
+	cfg := &PathCfg{
+		// the encoding of the record may live in a helper (m.encode(f)): expanded in place
+		Inline: func(g *ssa.Function) bool { return fnPkg(g) == fnPkg(fn) && g != fn && writes(g) },
+		Classify: func(in ssa.Instruction) []string {
+			cc := callCommon(in)
+			if cc == nil {
+				return nil
+			}
+			switch calleeName(cc) {
+			case "os.OpenFile":
+				return []string{"open"}
+			case "fmt.Fprintf", "fmt.Fprint", "fmt.Fprintln", "(*os.File).Write", "(*os.File).WriteString", "(io.Writer).Write":
+				return []string{"write"}
+			case "(*os.File).Sync":
+				return []string{"fsync"}
+			case "(*os.File).Close":
+				return []string{"close"}
+			case "os.Rename":
+				return []string{"rename"}
+			}
 			return nil
-		}
-		switch calleeName(cc) {
-		case "os.OpenFile":
-			return []string{"open"}
-		case "fmt.Fprintf":
-			return []string{"write"}
-		case "(*os.File).Sync":
-			return []string{"fsync"}
-		case "(*os.File).Close":
-			return []string{"close"}
-		case "os.Rename":
-			return []string{"rename"}
-		}
-		return nil
-	}}
+		}}
 	allInstrs(fn, func(in ssa.Instruction) {
 		if call, ok := in.(*ssa.Call); ok && calleeName(call.Common()) == "os.Rename" {
 			rename = call
@@ -541,11 +641,42 @@ func fsMutation(in ssa.Instruction) (string, bool) {
 	case "(*os.File).Write", "(*os.File).Sync", "os.Rename", "os.Remove", "os.MkdirAll", "(*os.File).Truncate", "os.Create", "os.RemoveAll", "os.WriteFile", "io/ioutil.WriteFile":
 		return n, true
 	case "fmt.Fprintf", "fmt.Fprintln", "fmt.Fprint":
-		if mi, ok := cc.Args[0].(*ssa.MakeInterface); ok && mi.X.Type().String() == "*os.File" {
+		if mi, ok := writerArg(cc.Args[0]).(*ssa.MakeInterface); ok && mi.X.Type().String() == "*os.File" {
 			return n + "(file)", true
 		}
 	}
 	return "", false
+}
+
+// writerArg: the io.Writer a formatting call writes to; for a parameter of an encoding helper, the
+// writer every call site of the helper passes (when they agree in kind).
+func writerArg(v ssa.Value) ssa.Value {
+	for depth := 0; depth < 3; depth++ {
+		par, ok := v.(*ssa.Parameter)
+		if !ok || par.Parent() == nil {
+			return v
+		}
+		cg := cgOf(par.Parent())
+		if cg.P == nil {
+			return v
+		}
+		args, ok := cg.P.paramArgs(par)
+		if !ok || len(args) == 0 {
+			return v
+		}
+		v = args[0]
+		for _, a := range args[1:] {
+			if a.Type().String() != v.Type().String() {
+				return par
+			}
+			am, ok1 := a.(*ssa.MakeInterface)
+			vm, ok2 := v.(*ssa.MakeInterface)
+			if ok1 != ok2 || (ok1 && am.X.Type().String() != vm.X.Type().String()) {
+				return par
+			}
+		}
+	}
+	return v
 }
 
 // pathOrigin: which name-producing function of package nsqd a path argument comes from.
@@ -609,7 +740,7 @@ func crashPointSig(in ssa.Instruction) (string, bool) {
 		}
 	case strings.HasPrefix(n, "fmt."):
 		target = "local file"
-		if mi, ok := cc.Args[0].(*ssa.MakeInterface); ok {
+		if mi, ok := writerArg(cc.Args[0]).(*ssa.MakeInterface); ok {
 			if _, f, ok := fieldLoad(mi.X); ok {
 				target = "field " + f.Name()
 			}
